@@ -9,13 +9,22 @@
    checker as integers:  x = X / 2^s (all coordinates of the file, one common s) and w = W / 2^sw.
    The harmonics used are homogeneous polynomials, so the scaled integers can be fed directly.
 
-   Harmonics.  For m >= 0 let  C_m + i S_m = (x + i y)^m  and let U_l^m(z, rho) (rho stands for
-   x^2+y^2+z^2) be given by the division-free recurrence
+   Harmonics.  For m >= 0 let  C_m + i S_m = (x + i y)^m  and let U_l^m(z, rho) be given by the
+   division-free recurrence
        U_m^m = 1,  U_(m-1)^m = 0,
        U_(l+1)^m = (2l+1) z U_l^m - (l+m)(l-m) rho U_(l-1)^m .
-   Then H_(l,m) = C_m U_l^m and H_(l,-m) = S_m U_l^m are (up to the normalisation constant, whose
-   square is the rational kappa(l,m)/pi below) the real solid harmonics r^l Y_(l,±m); this is what
-   C02_proofs.v proves for every l and m. *)
+   With rho = 1,  H_(l,m) = C_m U_l^m and H_(l,-m) = S_m U_l^m are, up to the normalisation constant
+   (whose square is the rational kappa(l,m)/pi below), the Cartesian form
+       N_lm (C_m | S_m)(x,y) d^m P_l/dz^m (z)
+   of the real spherical harmonics Y_(l,±m); C02_legendre.v / C02_proofs.v prove this for every l, m.
+   rho is a parameter only because the integers fed to the checker are the coordinates times 2^s:
+   U_l^m(2^s z, 4^s) = 2^(s(l-m)) U_l^m(z, 1).
+
+   Cost.  The sums S_(l,±m) = sum_i w_i (C_m|S_m)(x_i,y_i) U_l^m(z_i) are not formed point by point.
+   First the moments M_(m,a) = sum_i w_i (C_m|S_m)(x_i,y_i) z_i^a (m + a <= d) are accumulated (one
+   small-by-big multiplication and one addition per point and entry), then the recurrence is applied to
+   the moment rows:  G_(l,j) = sum_i w_i C_m z_i^j U_l^m(z_i) satisfies
+   G_(l+1,j) = (2l+1) G_(l,j+1) - (l+m)(l-m) rho G_(l-1,j),  and S_(l,m) = G_(l,0). *)
 From Coq Require Import ZArith List Bool.
 From Bignums Require Import BigZ.
 Import ListNotations.
@@ -51,11 +60,11 @@ Fixpoint cs_pow (m : nat) (X Y : A) : A * A :=
 Definition u_next (l m : Z) (z r2 ucur uprev : A) : A :=
   (oZ K (2 * l + 1) *' z) *' ucur -' (oZ K ((l + m) * (l - m)) *' r2) *' uprev.
 
-(* [U_l; U_(l+1); ...] (n+1 entries) *)
-Fixpoint u_row (n : nat) (l m : Z) (z r2 ucur uprev : A) : list A :=
+(* (U_(m+n)^m, U_(m+n-1)^m) at (z, rho) *)
+Fixpoint u_pair (n : nat) (m : Z) (z r2 : A) : A * A :=
   match n with
-  | O => [ucur]
-  | S n' => ucur :: u_row n' (l + 1)%Z m z r2 (u_next l m z r2 ucur uprev) ucur
+  | O => (o1 K, o0 K)
+  | S k => let u := u_pair k m z r2 in (u_next (m + Z.of_nat k)%Z m z r2 (fst u) (snd u), fst u)
   end.
 
 (* [t; z t; z^2 t; ...] (n+1 entries), on pairs *)
@@ -88,16 +97,16 @@ Definition tri_add (a b : list (list (A * A))) := zip_with (zip_with pair_add) a
 
 Definition tri_of (d : nat) (p : pt) := pt_tri d p (o1 K, o0 K).
 
-(* moments  M_(m,a) = sum_i W_i (C_m,S_m)(X_i,Y_i) Z_i^a  for m + a <= d: sum of the triangles of all points (first point seeds the sum) *)
+(* moments  M_(m,a) = sum_i W_i (C_m,S_m)(X_i,Y_i) Z_i^a  for m + a <= d: sum of the triangles of all points *)
+Definition zero_tri (d : nat) : list (list (A * A)) :=
+  map (fun m => map (fun _ => (o0 K, o0 K)) (seq 0 (S (d - m)))) (seq 0 (S d)).
+
 Definition tri_sum (d : nat) (pts : list pt) : list (list (A * A)) :=
-  match pts with
-  | [] => []
-  | p :: r => fold_left (fun acc q => tri_add acc (tri_of d q)) r (tri_of d p)
-  end.
+  fold_left (fun acc q => tri_add acc (tri_of d q)) pts (zero_tri d).
 
 (* From the moments of one m to the sums  G_(l,j) = sum_i W_i C_m(i) Z_i^j U_l^m(Z_i, rho):
      G_(m,j) = M_(m,j),   G_(l+1,j) = (2l+1) G_(l,j+1) - (l+m)(l-m) rho G_(l-1,j).
-   [cur] = G_(l,.), [prev] = G_(l-1,.) (for l = m any list that is long enough: its coefficient is 0). *)
+   [cur] = G_(l,.), [prev] = G_(l-1,.) (zeros for l = m). *)
 Definition g_next (l m : Z) (r2 : A) (cur' prev : list A) : list A :=
   zip_with (fun c p => oZ K (2 * l + 1) *' c -' (oZ K ((l + m) * (l - m)) *' r2) *' p) cur' prev.
 
@@ -113,7 +122,8 @@ Definition s_row (m : nat) (r2 : A) (row : list (A * A)) : list (A * A) :=
   let n := pred (length row) in
   let c := map fst row in
   let s := map snd row in
-  combine (g_heads n (Z.of_nat m) (Z.of_nat m) r2 c c) (g_heads n (Z.of_nat m) (Z.of_nat m) r2 s s).
+  let zs := repeat (o0 K) (S (length row)) in
+  combine (g_heads n (Z.of_nat m) (Z.of_nat m) r2 c zs) (g_heads n (Z.of_nat m) (Z.of_nat m) r2 s zs).
 
 Fixpoint s_tri (m : nat) (r2 : A) (tri : list (list (A * A))) : list (list (A * A)) :=
   match tri with
@@ -217,25 +227,61 @@ Fixpoint tri_ok (mode : norm_mode) (s sw : Z) (m : nat) (tri : list (list (bigZ 
   | row :: r => row_ok mode s sw m m row && tri_ok mode s sw (S m) r
   end.
 
-Definition tri_shape_ok (d : nat) (tri : list (list (bigZ * bigZ))) : bool :=
-  Nat.eqb (length tri) (S d).
-
 (* the checker.  mode: normalisation of the method; d: advertised degree; n: advertised size;
    s, sw: binary scales; ps: stored points; ws: stored weights (possibly a single one) *)
 Definition grid_ok (mode : norm_mode) (d n : nat) (s sw : Z)
            (ps : list (bigZ * bigZ * bigZ)) (ws : list bigZ) : bool :=
-  Nat.eqb (length ps) n &&
+  Nat.eqb (length ps) n && (0 <=? s)%Z && (0 <=? sw)%Z &&
   match mk_pts ps (expand_weights n ws) with
   | None => false
   | Some pts =>
       forallb (on_sphere_ok s) pts
       && wsum_ok mode sw (sum_list BOps (map pw pts))
-      && (let tri := s_tri BOps 0 (bpow2 (2 * s)) (tri_sum BOps d pts) in tri_shape_ok d tri && tri_ok mode s sw 0 tri)
+      && tri_ok mode s sw 0 (s_tri BOps 0 (bpow2 (2 * s)) (tri_sum BOps d pts))
   end.
 
-(* single quantities, used to refute a grid (kernel-checked witnesses of a failing file) *)
+(* ------------------------------------------------------------------ refutation of a single quantity
+   (kernel-checked witness that a file violates the property; cost N*l instead of N*d^2) *)
 Definition S_lm (s : Z) (l m : nat) (neg : bool) (pts : list (@pt bigZ)) : bigZ :=
   sum_list BOps (map (fun p =>
     let cs := cs_pow BOps m (px p) (py p) in
-    let u := last (u_row BOps (l - m) (Z.of_nat m) (Z.of_nat m) (pz p) (bpow2 (2 * s)) 1%bigZ 0%bigZ) 0%bigZ in
-    (pw p * (if neg then snd cs else fst cs) * u)%bigZ) pts).
+    let u := fst (u_pair BOps (l - m) (Z.of_nat m) (pz p) (bpow2 (2 * s))) in
+    ((pw p * (if neg then snd cs else fst cs)) * u)%bigZ) pts).
+
+(* kappa(l,m) * S^2 (* 16 pi^2 *) > pi * 1e-18 *)
+Definition lm_bad (mode : norm_mode) (s sw : Z) (l m : nat) (St : bigZ) : bool :=
+  let sc := bpow2 (2 * (s * Z.of_nat l + sw)) in
+  let lhs := (bz (kappa_num l m) * (St * St) * bz tol_int_inv * bz tol_int_inv)%bigZ in
+  let rhs := (bz (kappa_den l m) * sc)%bigZ in
+  match mode with
+  | Times4Pi => BigZ.ltb (rhs * bz pi_den)%bigZ (16 * lhs * bz pi_lo_num)%bigZ
+  | AsStored => BigZ.ltb (rhs * bz pi_hi_num)%bigZ (lhs * bz pi_den)%bigZ
+  end.
+
+(* | sum w - 4 pi | > 1e-9 *)
+Definition wsum_bad (mode : norm_mode) (sw : Z) (Sw : bigZ) : bool :=
+  let one := bpow2 sw in
+  match mode with
+  | Times4Pi => BigZ.ltb (one * bz pi_den)%bigZ (4 * bz pi_lo_num * BigZ.abs (Sw - one) * bz tol_int_inv)%bigZ
+  | AsStored =>
+      BigZ.ltb (4 * bz pi_hi_num * one * bz tol_int_inv)%bigZ ((Sw * bz tol_int_inv - one) * bz pi_den)%bigZ
+      || BigZ.ltb ((Sw * bz tol_int_inv + one) * bz pi_den)%bigZ (4 * bz pi_lo_num * one * bz tol_int_inv)%bigZ
+  end.
+
+(* the file violates the property at (l, m) (m >= 0; neg selects the sine harmonic (l,-m)) *)
+Definition grid_bad_lm (mode : norm_mode) (n : nat) (s sw : Z) (l m : nat) (neg : bool)
+           (ps : list (bigZ * bigZ * bigZ)) (ws : list bigZ) : bool :=
+  (0 <=? s)%Z && (0 <=? sw)%Z && Nat.leb 1 l && Nat.leb m l && (negb neg || Nat.leb 1 m) &&
+  match mk_pts ps (expand_weights n ws) with
+  | None => false
+  | Some pts => lm_bad mode s sw l m (S_lm s l m neg pts)
+  end.
+
+(* the file violates the property at l = 0 (weights do not sum to 4 pi) *)
+Definition grid_bad_wsum (mode : norm_mode) (n : nat) (sw : Z)
+           (ps : list (bigZ * bigZ * bigZ)) (ws : list bigZ) : bool :=
+  (0 <=? sw)%Z &&
+  match mk_pts ps (expand_weights n ws) with
+  | None => false
+  | Some pts => wsum_bad mode sw (sum_list BOps (map pw pts))
+  end.
